@@ -43,7 +43,11 @@
    break anyway" branch, blocks.go:985), and if not even the first unit fits
    the unit is placed anyway (pageIsEmpty, blocks.go:750, 931).
 
-   No proofs in this file.
+   No proofs in this file.  Partial operations: the ported functions have none on
+   this domain (the panics of pages.go:697, 752, 951 need a root box of another type or
+   a zero PageBreak, which blockLevelLayout never returns; ResumeStack.Unpack is in
+   Layout/Fragment.v); termination of the page loop is the theorem
+   C12_paginate_terminates, the model itself runs on fuel = number of units.
 
    Not modelled (the generators keep them out): floats, absolutely positioned
    boxes, tables, columns, footnotes, box-decoration-break: clone, margin-break,
